@@ -316,11 +316,18 @@ func registerReplay[C any](prop string, exec func(C) *Failure) {
 // TestReplay re-runs the case files named in VERIF_REPLAY (colon separated).
 // A file that fails with a signature listed as known prints KNOWN-FINDING
 // instead of VIOLATION.
+// replaying: a saved case is being re-executed. The oracles that the quick tier applies to the last batch of a history
+// only (C01) are then applied after every batch, as in the thorough tier, so that a case saved by the thorough tier
+// fails again whatever the tier of the replay.
+var replaying bool
+
 func TestReplay(t *testing.T) {
 	files := os.Getenv("VERIF_REPLAY")
 	if files == "" {
 		t.Skip("VERIF_REPLAY not set")
 	}
+	replaying = true
+	defer func() { replaying = false }()
 	for _, path := range strings.Split(files, ":") {
 		data, err := os.ReadFile(path)
 		if err != nil {
